@@ -55,7 +55,7 @@ def expect_violated(ctx, sd, module, cfg, inv, timeout=300):
         raise Infra("vacuity guard: %s is not violated in %s/%s (%s)" % (inv, module, cfg, r["violated"]))
 
 
-def infra_records(recs, out, what):
+def infra_records(recs, out, what, replay=False):
     for r in recs:
         if r.get("k") == "nohook":
             raise Infra(r["detail"])
@@ -67,7 +67,8 @@ def infra_records(recs, out, what):
             raise Infra("%s: %s" % (what, r["detail"]))
     mism = [r for r in recs if r.get("k") == "mismatch"]
     for r in recs:
-        if r.get("k") == "drift" and not mism:
+        if r.get("k") == "drift" and not mism and not replay:
+            # (in --replay mode the recorded expectation may be the one of the unrepaired tree: not reproduced = exit 0)
             raise Infra("%s: model and implementation disagree without a property violation (spec needs reconciling): %s"
                         % (what, r["detail"]))
 
@@ -93,20 +94,24 @@ def run(ctx):
         ctx.tlc_check(sd, "Auth", "MCA.cfg", workers=8, timeout=1500)
         ctx.write_cfg(sd, "MCB.cfg", "Spec", auth_consts("B", pmB), inv)
         ctx.tlc_check(sd, "Auth", "MCB.cfg", workers=8, timeout=1500)
-        # the repaired implementation (no deviation) satisfies the property without exception
-        ctx.write_cfg(sd, "MCS.cfg", "Spec", auth_consts("B", "none", devs=[]), inv + ["C16_ExecutedOnlyIfAllowedStrict"])
-        ctx.tlc_check(sd, "Auth", "MCS.cfg", workers=8, timeout=900)
-        for w in ctx.pick(["NeverTainted"], ["NeverRuns", "NeverTainted"]):
+        # the repaired implementation (no deviation) satisfies the property without exception; with a single
+        # recorded deviation left this run nearly repeats MCB, so it and the witness runs are thorough-tier only
+        if not ctx.quick():
+            ctx.write_cfg(sd, "MCS.cfg", "Spec", auth_consts("B", "none", devs=[]), inv + ["C16_ExecutedOnlyIfAllowedStrict"])
+            ctx.tlc_check(sd, "Auth", "MCS.cfg", workers=8, timeout=900)
+        for w in ctx.pick([], ["NeverRuns", "NeverTainted"]):
             ctx.write_cfg(sd, "W%s.cfg" % w, "Spec", auth_consts("W", "none"), [w])
             expect_violated(ctx, sd, "Auth", "W%s.cfg" % w, w)
         cinv = ["TypeOK", "C16_OldCredentialDiesOnArrival", "C16_OldPrivilegeDiesOnArrival", "CacheSound"]
         cc = cache_consts(*ctx.pick((3, 2, False), (3, 3, False)))
         ctx.write_cfg(sd, "MCC.cfg", "Spec", cc, cinv)
-        ctx.tlc_check(sd, "AuthCache", "MCC.cfg", workers=8, timeout=1500, coverage=not ctx.quick())
+        r = ctx.tlc_check(sd, "AuthCache", "MCC.cfg", workers=8, timeout=1500, coverage=not ctx.quick())
+        if r.get("zero_coverage"):
+            raise Infra("vacuity guard: actions of AuthCache never taken: %s" % r["zero_coverage"])
         # negative control: without the lookup check the model has the F17 behaviour
         ctx.write_cfg(sd, "MCC0.cfg", "Spec", cache_consts(2, 1, True, fixed=False), cinv)
         expect_violated(ctx, sd, "AuthCache", "MCC0.cfg", "C16_OldCredentialDiesOnArrival")
-        for w in ctx.pick(["NeverStaleEntry"], ["NeverCacheHit", "NeverStaleEntry", "NeverRejectsOld"]):
+        for w in ctx.pick([], ["NeverCacheHit", "NeverStaleEntry", "NeverRejectsOld"]):
             ctx.write_cfg(sd, "W%s.cfg" % w, "Spec", cache_consts(2, 1, True), [w])
             expect_violated(ctx, sd, "AuthCache", "W%s.cfg" % w, w)
         ctx.cov["exhaustive"] = True
@@ -135,7 +140,7 @@ def run(ctx):
         p = ctx.write_json("in-%s-%s.json" % (test, label), inp)
         recs, out, rc = ctx.go_test(pkg, files, "^%s$" % test, env={"VERIF_IN": p}, timeout=1800, label=label,
                                     extra_pkgs=AUTHX)
-        infra_records(recs, out, test)
+        infra_records(recs, out, test, replay=bool(ctx.replay))
         return recs, out, rc
 
     def matrix(pkg, files, test, inp):
